@@ -54,6 +54,10 @@ def gen_program(rng: Any) -> dict[str, Any]:
             burst = rng.choice([1, 1, 1, 2, 4])
             for _ in range(burst):
                 steps.append(["dispatch", *rng.choice(chans)])
+            if rng.random() < 0.06:
+                # the owner instance is dropped and replaced by a fresh one (possibly at the same address) while
+                # subscribers of the old instance may still be listening
+                steps.append(["reincarnate", rng.randrange(n_inst)])
         tasks.append({"kind": "dispatcher", "steps": steps})
     for _ in range(rng.randint(1, 4)):
         sigs = rng.sample(chans, rng.randint(1, min(3, len(chans))))
@@ -88,6 +92,7 @@ class Run:
         self.events: dict[int, Any] = {}
         self.next_eid = 0
         self.insts: list[Any] = []
+        self.gens: list[int] = []
         self.crash: BaseException | None = None
 
     async def steps(self, steps: list[Any], actor: Any) -> None:
@@ -99,16 +104,25 @@ class Run:
                     await checkpoint()
             elif st[0] == "sleep":
                 await anyio.sleep(st[1])
+            elif st[0] == "reincarnate":
+                import gc
+
+                i = st[1]
+                self.insts[i] = None
+                gc.collect()
+                self.insts[i] = self.Src()
+                self.gens[i] += 1
+                self.trace.log("reincarnate", actor, inst=i, gen=self.gens[i])
             else:
                 _, i, a = st
                 sig = getattr(self.insts[i], a)
                 self.next_eid += 1
                 ev = self.Ev(self.next_eid)
-                self.events[ev.n] = ev
+                self.events[ev.n] = id(ev)
                 t0 = time.time()
                 with warnings.catch_warnings(record=True) as w:
                     warnings.simplefilter("always")
-                    self.trace.log("dispatch-call", actor, eid=ev.n, chan=(i, a))
+                    self.trace.log("dispatch-call", actor, eid=ev.n, chan=(i, self.gens[i], a))
                     raised = None
                     ret = None
                     try:
@@ -139,11 +153,12 @@ class Run:
 
         f = None if flt is None else filt
         style = spec["style"]
+        my_chans = [(i, self.gens[i], a) for i, a in spec["signals"]]
         self.trace.log("sub-enter-call", sid)
         try:
             cm = sigs[0].stream_events(f, max_queue_size=spec["q"]) if spec["via"] == "method" else stream_events(sigs, f, max_queue_size=spec["q"])
             async with cm as stream:
-                self.trace.log("sub-entered", sid)
+                self.trace.log("sub-entered", sid, chans=my_chans)
                 try:
                     count = 0
                     if style["kind"] == "count" and style["n"] == 0:
@@ -176,13 +191,13 @@ class Run:
         sigs = self.signals(spec["signals"])
         flt = spec["filter"]
         f = None if flt is None else (lambda ev: passes(flt, ev.n))
-        self.trace.log("wait-begin", wid)
+        self.trace.log("wait-begin", wid, chans=[(i, self.gens[i], a) for i, a in spec["signals"]])
         try:
             ev = await (sigs[0].wait_event(f) if spec["via"] == "method" else wait_event(sigs, f))
         except BaseException as e:
             self.trace.log("wait-end", wid, how=describe_exc(e))
             raise
-        self.trace.log("wait-return", wid, eid=getattr(ev, "n", None), known=ev is self.events.get(getattr(ev, "n", None)))
+        self.trace.log("wait-return", wid, eid=getattr(ev, "n", None), known=id(ev) == self.events.get(getattr(ev, "n", None)))
 
     async def main(self) -> None:
         from asphalt.core import Event, Signal
@@ -199,7 +214,9 @@ class Run:
         Src = type("Src", (), {f"s{j}": Signal(Ev) for j in range(prog["n_signals"])})
         for name in [f"s{j}" for j in range(prog["n_signals"])]:
             getattr(Src, name).__set_name__(Src, name)
+        self.Src = Src
         self.insts = [Src() for _ in range(prog["n_instances"])]
+        self.gens = [0] * prog["n_instances"]
         cancel_scopes: dict[int, anyio.CancelScope] = {}
         try:
             async with create_task_group() as consumers:
@@ -296,12 +313,13 @@ def check(run: Run) -> tuple[list[dict[str, Any]], dict[str, int]]:
     active_subs = 0
     for sid, spec in subs:
         ev_s = [e for e in tr.events if e["actor"] == sid and e["kind"] in ("sub-entered", "sub-exit-begin", "pull", "yield", "sub-exited")]
-        entered = next((e["seq"] for e in ev_s if e["kind"] == "sub-entered"), None)
-        if entered is None:
+        entered_ev = next((e for e in ev_s if e["kind"] == "sub-entered"), None)
+        if entered_ev is None:
             continue
+        entered = entered_ev["seq"]
         active_subs += 1
         exit_begin = next((e["seq"] for e in ev_s if e["kind"] == "sub-exit-begin"), 1 << 60)
-        chans = {tuple(x) for x in spec["signals"]}
+        chans = {tuple(x) for x in entered_ev["chans"]}
         W = [d["eid"] for d in dispatches if chan_of[d["eid"]] in chans and entered < d["seq"] < exit_begin]
         Wset = set(W)
         flt = spec["filter"]
@@ -378,10 +396,11 @@ def check(run: Run) -> tuple[list[dict[str, Any]], dict[str, int]]:
             inc("dispatches_with_overflow_warning")
     # 6. wait_event
     for wid, spec in [(k, t) for k, t in enumerate(prog["tasks"]) if t["kind"] == "waiter"]:
-        begin = next((e["seq"] for e in tr.events if e["actor"] == wid and e["kind"] == "wait-begin"), None)
-        if begin is None:
+        begin_ev = next((e for e in tr.events if e["actor"] == wid and e["kind"] == "wait-begin"), None)
+        if begin_ev is None:
             continue
-        chans = {tuple(x) for x in spec["signals"]}
+        begin = begin_ev["seq"]
+        chans = {tuple(x) for x in begin_ev["chans"]}
         cands = [d["eid"] for d in dispatches if d["seq"] > begin and chan_of[d["eid"]] in chans and passes(spec["filter"], d["eid"])]
         ret = next((e for e in tr.events if e["actor"] == wid and e["kind"] == "wait-return"), None)
         inc("wait_event_calls")
@@ -400,4 +419,6 @@ def check(run: Run) -> tuple[list[dict[str, Any]], dict[str, int]]:
     if any(t["kind"] == "subscriber" and t["style"]["kind"] in ("count", "raise", "cancel") for t in prog["tasks"]):
         inc("histories_with_leaving_subscriber")
     inc(f"backend_{prog['backend']}")
+    if any(e["kind"] == "reincarnate" for e in tr.events):
+        inc("histories_with_owner_replaced")
     return V, c
